@@ -64,7 +64,10 @@ def oslin_len(a, num, result):
 @ensures(OS_LIN)
 def oslin_fill(a, num, result):
     return forall(range(len(a) - 1), lambda k: forall(range(num), lambda j:
-                  eq(result[k * num + j], a[k] + j * (a[k + 1] - a[k]) / num))) if num >= 2 else True
+                  eq(result[k * num + j], a[k] + j * (a[k + 1] - a[k]) / num)
+                  # the flat index of (k, j) lies before the last element (stated here so that callers get this nonlinear
+                  # fact together with every instance of the clause)
+                  and 0 <= k * num + j and k * num + j < (len(a) - 1) * num)) if num >= 2 else True
 
 
 @ensures(OS_LIN)
@@ -92,7 +95,8 @@ def ospwc_pre(a, num):
 def ospwc_post(a, num, result):
     return ((same_len(result, a) and forall(range(len(a)), lambda i: result[i] == a[i])) if num < 2 else
             (is_ndarray(result) and len(result) == (len(a) - 1) * num + 1
-             and forall(range(len(a) - 1), lambda k: forall(range(num), lambda j: result[k * num + j] == a[k]))
+             and forall(range(len(a) - 1), lambda k: forall(range(num), lambda j:
+                        result[k * num + j] == a[k] and 0 <= k * num + j and k * num + j < (len(a) - 1) * num))
              and result[(len(a) - 1) * num] == a[len(a) - 1]))
 
 
